@@ -1,6 +1,8 @@
 module gosym
 
-go 1.23
+go 1.23.2
+
+toolchain go1.23.5
 
 require golang.org/x/tools v0.29.0
 
@@ -8,4 +10,7 @@ require (
 	golang.org/x/mod v0.22.0 // indirect
 	golang.org/x/sync v0.10.0 // indirect
 )
+
 require golang.org/x/text v0.16.0
+
+require seehuhn.de/go/postscript v0.5.1-0.20250316102127-8863e3a3d4c4
